@@ -841,7 +841,10 @@ def _check_database_structure(conn: sqlite3.Connection):
     """
     cursor = conn.cursor()
 
-    cursor.execute("BEGIN TRANSACTION;")
+    # We might have to (re)create the table, so take the write lock up front:
+    # upgrading from a read lock fails immediately ("database is locked") when
+    # another process is doing the same thing at the same time.
+    cursor.execute("BEGIN IMMEDIATE TRANSACTION;")
     cursor.execute("SELECT name FROM sqlite_master WHERE type='table' AND name='models'")
     table_exists = cursor.fetchone()
     table_correct = False
@@ -882,7 +885,7 @@ def _check_database_structure(conn: sqlite3.Connection):
 
     # For metadata we check if the table layout is correct, but also whether
     # the metadata keys exist.
-    cursor.execute("BEGIN TRANSACTION;")
+    cursor.execute("BEGIN IMMEDIATE TRANSACTION;")
     cursor.execute("SELECT name FROM sqlite_master WHERE type='table' AND name='metadata'")
     metadata_table_exists = cursor.fetchone()
     metadata_table_correct = False
@@ -1049,6 +1052,11 @@ def _parse_cached(
             result = cursor.fetchone()
             if result != ("ok",):
                 raise sqlite3.DatabaseError("Database integrity check failed")
+        except sqlite3.OperationalError:
+            # E.g. the database is locked by another process. That does not
+            # mean it is corrupt, and we should certainly not delete it.
+            conn.close()
+            raise
         except sqlite3.DatabaseError:
             conn.close()
 
